@@ -626,6 +626,15 @@ func (x *Exec) loopEnv(fr *Frame, li *loopInfo, st *State, override map[*ssa.Phi
 		}
 	}
 	for _, ins := range li.head.Instrs {
+		if nx, ok := ins.(*ssa.Next); ok && !nx.IsString {
+			if r, ok := nx.Iter.(*ssa.Range); ok {
+				if vis, ok := st.cells[cellKey{fr.id, "iter_" + r.Name()}]; ok {
+					env.vars["rangevisited"] = &CV{T: vis}
+				}
+			}
+		}
+	}
+	for _, ins := range li.head.Instrs {
 		phi, ok := ins.(*ssa.Phi)
 		if !ok {
 			break
